@@ -12,7 +12,7 @@ ASSUMPTIONS = ["capacities are const generics: the harness monomorphises a menu 
 TECHNIQUE = "Coq proof: fits-or-7F theorem for every response value, capacity N>=1 and prior buffer (one recorded exception class N=1 with empty map); differential run around every capacity of the menu"
 LEVEL_TEXT = ("Theorem on the model of Response::serialize for every response value, every capacity N >= 1 and every prior buffer: the result is the "
               "complete message when the CBOR body fits the N-1 scratch bytes and exactly [0x7F] otherwise, never a truncated body, independent of the "
-              "prior contents; the class (N = 1, body = empty map) where the property's reading differs is proved to be the only exception and is "
+              "prior contents; corollaries: monotone in the capacity and a single threshold |body| + 1; the class (N = 1, body = empty map) where the property's reading differs is proved to be the only exception and is "
               "replayed as a known finding; differential run crossing every capacity boundary.")
 feature_sets = default_feature_sets
 
